@@ -281,6 +281,16 @@ def run_histories(chk, histories, configs, modes=("f",), with_file=True, determi
     return execs, meta, files, faults
 
 
+def count_boundary_histories(chk, tier):
+    """Tables whose footer lists have lengths around the encoding boundaries of the metadata (Thrift compact list
+    header: 15 elements; one-byte varints: 128): number of columns (schema list = columns + 1, chunk list = columns)
+    and number of row groups swept across them."""
+    widths = [113, 114, 115, 116, 117] + ([127, 128, 129, 130] if tier != "quick" else [128])
+    hs = gen_histories(chk, widths, [1, 2], 1, 1, nullmode="runs", simulate=4, workers=4)
+    hs += gen_histories(chk, [1], [1], 17 if tier == "quick" else 130, 1, simulate=4, workers=4)
+    return hs
+
+
 def nontrivial_history(ops):
     nb = sum(1 for o in ops if o["op"] == "WriteBatch")
     nulls = any(0 in o["defs"] for o in ops if o["op"] == "WriteBatch" and o["withDefs"])
